@@ -154,6 +154,19 @@ CHECKS = {
             "class or per source both accepted; no timing requirement beyond 'within two quiet periods'.",
             "TLA+ spec + TLC exhaustive/simulate generation, replay into real Canary instances, transition-coverage replay of UniqueSet",
             "DESIGN.md §3 C20"),
+    "C14": ("model_checking",
+            "CanaryTCP.tla constrains what the listener may emit in reaction to a client frame, in numbers relative to the client's ISN "
+            "and the listener's SYN-ACK: one SYN|ACK acknowledging isn+1; afterwards every emitted frame is addressed back to a known "
+            "connection with correct IPv4/TCP checksums and acknowledges exactly the bytes (and FIN) received from that connection; data "
+            "and FIN are answered; sequence numbers never go back. TLC enumerates all client behaviours of one connection up to 5 frames "
+            "(segment lengths 1, 2, 1459, 1460, PSH, FIN with/without data) and simulates interleavings of two; they are bound to the "
+            "boundary ISNs 0, 1, 2^31-1, 2^31, 2^32-2, 2^32-1 and random ones, decoded and undecoded ports, injected into a real Canary "
+            "(hooks), every emitted frame is decoded by the harness's own decoder, and TLC validates the recorded steps against "
+            "CanaryTCP_Trace; connection events (addresses, payload = prefix containing the first pushed segment) are checked too.",
+            "Server ISN as drawn (wrap of the listener's own sequence space not steerable); data piggybacked on the handshake-"
+            "completing ACK is outside the explored behaviours; synchronous injection via hook VerifInject.",
+            "TLA+ spec + TLC generation of client behaviours, injection into the real listener, TLC trace validation of emitted frames",
+            "DESIGN.md §3 C14"),
 }
 
 NOT_YET = "check not built yet in this session (see DESIGN.md §10 for the order of construction)"
